@@ -536,6 +536,9 @@ type mtx struct {
 	tid  int
 	tx   *types.Tx
 	kind string
+	// stateless: a transaction whose body the model's `stdBody` does not cover (aergo.system calls): only given to the
+	// stateless operations (Validate, VerifyTx, ValidateWithSenderState), never to the pool, a block or executeTx
+	stateless bool
 }
 
 type mblk struct {
@@ -1493,7 +1496,9 @@ func (s *session) genBlock() {
 		case rng.Chance(1, 8):
 			// replay: any transaction made so far, typically already included below tip
 			if len(s.txs) > 0 {
-				txs = append(txs, s.txs[rng.Intn(len(s.txs))])
+				if m := s.txs[rng.Intn(len(s.txs))]; !m.stateless {
+					txs = append(txs, m)
+				}
 			}
 		default:
 			m := s.genTx(tip)
@@ -2170,6 +2175,96 @@ func (s *session) genForkBoundary() {
 	s.opProduce("first-of-new-version")
 }
 
+
+// genSystemTx: a call of aergo.system (stake / unstake / votes / an undecodable payload). Only the stateless checks
+// are driven on these (the system contract's execution is C15's).
+func (s *session) genSystemTx(tip *mblk) *mtx {
+	rng := s.rng
+	from := rng.Intn(nAcct)
+	b := &types.TxBody{Nonce: s.nonceAt(tip, s.w.addrs[from]) + 1, Account: s.w.addrs[from], Recipient: []byte(types.AergoSystem),
+		Type: types.TxType_GOVERNANCE, ChainIdHash: s.cidAt(tip.height + 1)}
+	sp := txSpec{body: b, sig: sigSpec{mode: "k", key: from}, hash: hashSpec{mode: "self"}}
+	switch rng.Intn(6) {
+	case 0, 1:
+		b.Payload = []byte(`{"Name":"v1stake","Args":[]}`)
+		b.Amount = new(big.Int).Mul(aergo1, big.NewInt(int64(1+rng.Intn(3000)))).Bytes() // the accounts hold about 1000 aergo
+		sp.cmd, sp.kind = "y:stake", "system-stake"
+	case 2:
+		b.Payload = []byte(`{"Name":"v1unstake","Args":[]}`)
+		b.Amount = new(big.Int).Mul(aergo1, big.NewInt(int64(1+rng.Intn(3000)))).Bytes()
+		sp.cmd, sp.kind = "y:other", "system-unstake"
+	case 3:
+		b.Payload = []byte(`{"Name":"v1voteBP","Args":[]}`)
+		sp.cmd, sp.kind = "y:other", "system-vote-bp"
+	case 4:
+		b.Payload = []byte(`{"Name":"v1voteDAO","Args":["BPCOUNT","3"]}`)
+		sp.cmd, sp.kind = "y:other", "system-vote-dao"
+	default:
+		b.Payload = []byte(`{{not json`)
+		b.Amount = big.NewInt(int64(rng.Intn(1000))).Bytes()
+		sp.cmd, sp.kind = "y:bad", "system-bad-payload"
+	}
+	// on a chain whose consensus is not dpos (this one: sbp) types.InitGovernance installs a validator for aergo.system
+	// that answers ErrTxInvalidType to every payload: Validate refuses these transactions, ValidateWithSenderState
+	// (driven directly) is the same code on every chain
+	sp.gov = "type"
+	m := s.mk(sp)
+	m.stateless = true
+	return m
+}
+
+// opVSender: the real ValidateWithSenderState of one transaction against a sender state chosen around the
+// transaction's nonce and amount (also at the uint64 limit of the nonce).
+func (s *session) opVSender(m *mtx) {
+	if m.tx.Body == nil {
+		return
+	}
+	rng := s.rng
+	txn := m.tx.Body.Nonce
+	var stNonce uint64
+	switch rng.Intn(8) {
+	case 0, 1, 2:
+		stNonce = txn - 1 // exactly one below (wraps to 2^64-1 for nonce 0)
+	case 3:
+		stNonce = txn
+	case 4:
+		stNonce = txn - 2 - uint64(rng.Intn(5))
+	case 5:
+		stNonce = txn + 1 + uint64(rng.Intn(3))
+	case 6:
+		stNonce = ^uint64(0) - uint64(rng.Intn(2))
+	default:
+		stNonce = uint64(rng.Intn(10))
+	}
+	amount := m.tx.Body.GetAmountBigInt()
+	bal := new(big.Int).Set(genesisBalance)
+	switch rng.Intn(6) {
+	case 0:
+		bal = big.NewInt(0)
+	case 1:
+		bal = new(big.Int).Set(amount)
+	case 2:
+		if amount.Sign() > 0 {
+			bal = new(big.Int).Sub(amount, big.NewInt(1))
+		}
+	case 3:
+		bal = new(big.Int).Add(amount, big.NewInt(1))
+	}
+	version := s.hf.Version(s.bestBlk().height + 1)
+	err := types.NewTransaction(m.tx).ValidateWithSenderState(&types.State{Nonce: stNonce, Balance: bal.Bytes()}, system.GetGasPrice(), version)
+	s.op(fmt.Sprintf("vsender %d %d %s", m.tid, stNonce, bal.String()), class(err), err == nil)
+	s.run.Count("vsender=" + class(err))
+	// oracle: accepted => the nonce is exactly the state nonce plus one (as the code computes it: uint64)
+	if err == nil {
+		if txn != stNonce+1 {
+			s.fail(fmt.Sprintf("ValidateWithSenderState accepted nonce %d for a sender whose state nonce is %d (%s)", txn, stNonce, m.kind))
+		}
+		if stNonce == ^uint64(0) {
+			s.run.Count("vsender-accepted-at-uint64-wrap")
+		}
+	}
+}
+
 func (s *session) runSession(nops int) {
 	// hard-fork heights of this session: version 5 from block 1 on, or version 4 up to a small height and 5 from there
 	s.forkAt = 0
@@ -2245,12 +2340,17 @@ func (s *session) runSession(nops int) {
 			} else {
 				m = s.genTx(s.bestBlk())
 			}
-			switch s.rng.Intn(4) {
-			case 0:
+			if s.rng.Chance(1, 6) {
+				m = s.genSystemTx(s.bestBlk())
+			}
+			switch k := s.rng.Intn(5); {
+			case k == 0:
 				s.opValidate(m)
-			case 1:
+			case k == 1:
 				s.opVerify(m)
-			case 2:
+			case k == 2 || m.stateless:
+				s.opVSender(m)
+			case k == 3:
 				s.opBVerify(m)
 			default:
 				s.opExec(m)
